@@ -5,6 +5,7 @@ import (
 	"context"
 	"fmt"
 	"math"
+	"runtime"
 	"sort"
 	"strings"
 	"sync"
@@ -53,7 +54,7 @@ func TestC04Concurrent(t *testing.T) {
 		nSends := rapid.IntRange(5, 60).Draw(t, "sendsPerSender")
 		plans := make([][]int, nMut)
 		for g := range plans {
-			plans[g] = rapid.SliceOfN(rapid.IntRange(0, 11), nOps, nOps).Draw(t, fmt.Sprintf("plan%d", g))
+			plans[g] = rapid.SliceOfN(rapid.IntRange(0, 13), nOps, nOps).Draw(t, fmt.Sprintf("plan%d", g))
 		}
 		b, _ := eventlogger.NewBroker()
 		w := &nodes.World{}
@@ -64,6 +65,8 @@ func TestC04Concurrent(t *testing.T) {
 		var mu sync.Mutex
 		var incs []*incarnation
 		var sends []sendRec
+		var badSinks []*nodes.N
+		var badAccepted []string
 		var kseq atomic.Int64
 		ctx := context.Background()
 		var wg sync.WaitGroup
@@ -80,7 +83,7 @@ func TestC04Concurrent(t *testing.T) {
 					case 0, 1, 2, 3: // register a new incarnation (overwrites the current one of the same type)
 						k := int(kseq.Add(1))
 						sid := eventlogger.NodeID(fmt.Sprintf("s%d", k))
-						sink := &nodes.N{W: w, Name: string(sid), ID: string(sid), T: eventlogger.NodeTypeSink}
+						sink := &nodes.N{W: w, Name: string(sid), ID: string(sid), T: eventlogger.NodeTypeSink, OnType: yield}
 						_ = b.RegisterNode(sid, sink)
 						inc := &incarnation{k: k, et: et, sink: sink, rmCall: math.MaxInt64, rmReturn: math.MaxInt64}
 						if cur != nil && cur.et != et {
@@ -136,7 +139,22 @@ func TestC04Concurrent(t *testing.T) {
 					case 10:
 						_ = b.RemoveNode(ctx, eventlogger.NodeID(fmt.Sprintf("s%d", kseq.Load())))
 					case 11:
-						_ = b.RegisterNode(eventlogger.NodeID(fmt.Sprintf("spare%d", g)), &nodes.N{W: w, Name: "spare", ID: "spare", T: eventlogger.NodeTypeFilter})
+						// a value node of an uncomparable dynamic type, re-registered over and over
+						_ = b.RegisterNode(eventlogger.NodeID(fmt.Sprintf("spare%d", g)), nodes.Uncomparable{Inner: &nodes.N{W: w, Name: "spare", ID: "spare", T: eventlogger.NodeTypeFilter}, Pad: []int{i}})
+					case 12, 13:
+						// an ill-formed definition (no formatter before the sink) over the current pipeline id: it must fail
+						// and its marker sink must never see an event, not even from a Send that is in flight
+						k := int(kseq.Add(1))
+						sid := eventlogger.NodeID(fmt.Sprintf("bad%d", k))
+						sink := &nodes.N{W: w, Name: string(sid), ID: string(sid), T: eventlogger.NodeTypeSink, OnType: yield}
+						_ = b.RegisterNode(sid, sink)
+						err := b.RegisterPipeline(eventlogger.Pipeline{PipelineID: pid, EventType: eventlogger.EventType(et), NodeIDs: []eventlogger.NodeID{"f0", sid}})
+						mu.Lock()
+						if err == nil {
+							badAccepted = append(badAccepted, string(sid))
+						}
+						badSinks = append(badSinks, sink)
+						mu.Unlock()
 					}
 				}
 			}(g)
@@ -166,6 +184,16 @@ func TestC04Concurrent(t *testing.T) {
 		case <-time.After(60 * time.Second):
 			t.Fatalf("VIOLATION C04: concurrent broker calls did not finish within 60s (deadlock?)")
 		}
+		if len(badAccepted) > 0 {
+			t.Fatalf("VIOLATION C04: ill-formed pipeline definitions were accepted: %v", badAccepted)
+		}
+		// quiescent probe: one more Send per type must reach exactly the incarnations that are still registered
+		probe := map[string]int{}
+		for _, et := range ets {
+			id := int(sid.Add(1))
+			probe[et] = id
+			_, _ = b.Send(ctx, eventlogger.EventType(et), &nodes.Lin{Path: fmt.Sprintf("P%d", id), SendID: id})
+		}
 		// deliveries per (incarnation sink, send)
 		got := map[*nodes.N]map[int]int{}
 		for _, c := range w.Calls() {
@@ -176,6 +204,20 @@ func TestC04Concurrent(t *testing.T) {
 				got[c.Node] = map[int]int{}
 			}
 			got[c.Node][c.SendID]++
+		}
+		for _, bs := range badSinks {
+			if len(got[bs]) > 0 {
+				t.Fatalf("VIOLATION C04: the sink of a rejected (ill-formed) pipeline definition received events %v", got[bs])
+			}
+		}
+		for _, inc := range incs {
+			want := 0
+			if inc.rmCall == math.MaxInt64 {
+				want = 1
+			}
+			if d := got[inc.sink][probe[inc.et]]; d != want {
+				t.Fatalf("VIOLATION C04: after all goroutines finished, a Send of type %s was delivered %d time(s) to pipeline incarnation %d, which is registered=%v", inc.et, d, inc.k, want == 1)
+			}
 		}
 		overlap := false
 		for _, inc := range incs {
@@ -256,6 +298,8 @@ func TestC04Concurrent(t *testing.T) {
 		sec.Case(overlap && nMut >= 2, desc, cl...)
 	})
 }
+
+func yield(*nodes.N) { runtime.Gosched() }
 
 func ownedBy(o *incarnation, g int, _ []*incarnation, _ eventlogger.PipelineID) bool { return o.owner == g }
 
@@ -462,7 +506,7 @@ func applyLin(b *eventlogger.Broker, w *nodes.World, op model.Op) linOut {
 	ctx := context.Background()
 	switch op.K {
 	case "regnode":
-		n := &nodes.N{W: w, Name: op.N, ID: op.N, T: typeOfID(op.N)}
+		n := &nodes.N{W: w, Name: op.N, ID: op.N, T: typeOfID(op.N), OnType: yield}
 		var opts []eventlogger.Option
 		switch op.Pol {
 		case 1:
